@@ -390,6 +390,17 @@ class Model:
                     for q in paths:
                         f = self.fs.get(q)
                         acc += "D %s %s\n" % (q, content_hash(f.data if f else None))
+            elif k == "softredo":
+                # `redo paths` from inside the script: forced, records no dependency, status remembered
+                ok = True
+                for q in st[1]:
+                    if self.start_self(q) != 0:
+                        ok = False
+                        if not self.keep_going:
+                            break
+                self.calls.append((p, "redo", ok))
+                if not ok:
+                    soft = 1
             elif k == "ifc":
                 q = st[1]
                 if self.exists(q):
